@@ -172,8 +172,10 @@ fn enumerate_files(path: &PathBuf) -> Result<Vec<PathBuf>, Vec<Diagnostic>> {
         let paths: Vec<PathBuf> = paths
             .into_iter()
             .filter_map(|entry| match entry {
-                Ok(entry) => Some(entry.path()),
-                Err(_) => None,
+                // Only the files in the directory. A directory in the
+                // directory is not a source file.
+                Ok(entry) if entry.path().is_file() => Some(entry.path()),
+                _ => None,
             })
             .collect();
         return Ok(paths);
